@@ -89,6 +89,17 @@ def history_sessions(ctx, n):
             s.cmd(t, "CMD " + FC.rand_cmd(rng, len(sim.trx)))
             if rng.random() < 0.12:
                 s.repeat(t)              # the same datagram once more: executed again, answered again
+            elif rng.random() < 0.08:
+                s.again(t, rng)          # an earlier command of this link (a SETFH after POWEROFF forgot it, ...)
+            elif rng.random() < 0.04:
+                x = "CMD SETFH %d %d %s" % (rng.randrange(64), rng.randrange(8), " ".join(str(rng.choice(FC.FREQS)) for _ in range(2 * rng.randint(1, 3))))
+                for c in (x, "CMD POWERON", "CMD POWEROFF", x, "CMD POWERON"):
+                    s.cmd(t, c)
+            elif rng.random() < 0.10:
+                # two or three commands waiting on the socket at once, identical ones among them
+                a = "CMD " + FC.rand_cmd(rng, len(sim.trx))
+                b = a if rng.random() < 0.5 else "CMD " + FC.rand_cmd(rng, len(sim.trx))
+                s.pipelined(t, [a, b] + ([a] if rng.random() < 0.3 else []))
             if rng.random() < 0.1:
                 s.tick()
         # power measurement on every carrier some transceiver is tuned to, whatever the others do
